@@ -36,6 +36,9 @@ struct Plan {
     /// legacy two-byte ALIVE2_RESP instead of ALIVE2_X_RESP
     #[serde(default)]
     epmd_legacy: bool,
+    /// the node is built with Node::new_hidden
+    #[serde(default)]
+    hidden: bool,
     /// operations issued before Node::start (only those that do not need a started node)
     #[serde(default)]
     before_start: Vec<Op>,
@@ -93,6 +96,7 @@ impl Scenario for C16N {
             // the node starts life with creation 1; EPMD may hand out the same value again
             epmd_creation: *r.pick(&[1u32, 1, 2, 3, 0xffff, 70_000, u32::MAX]),
             epmd_legacy: r.chance(1, 3),
+            hidden: r.chance(1, 3),
             before_start: gen_ops(r, n_before, false),
             tasks: (0..n_tasks).map(|_| { let n = r.range(1, 8) as usize; gen_ops(r, n, true) }).collect(),
             near_wrap: if r.chance(1, 4) { r.range(1, 6) as u32 } else { 0 },
@@ -248,7 +252,12 @@ async fn scenario(w: &Arc<World>, p: &Plan) {
         let wea = p.write_error_after;
         install_conforming_peer(w, NetCfg { client: EndCfg { short_writes: true, stall_16: 3, max_delay_ms: 2, ..Default::default() }, server: EndCfg::default(), cap: 0 }, OTP_FLAGS_BASE, move |w, conn, _s| Box::pin(peer(w, conn, seen2.clone(), wea)));
     }
-    let mut node = Node::new(SUT_NAME, COOKIE);
+    let mut node = if p.hidden {
+        w.stat("probe.c16n.hidden_node");
+        Node::new_hidden(SUT_NAME, COOKIE)
+    } else {
+        Node::new(SUT_NAME, COOKIE)
+    };
     let me = Val::Pid { node: SUT_NAME.to_string(), id: 900_001, serial: 0, creation: 1 };
     if p.near_wrap > 0 {
         node.verif_pid_allocator().next_id_test_only().store(1_048_576 - (p.near_wrap - 1), std::sync::atomic::Ordering::SeqCst);
